@@ -19,10 +19,6 @@ C08 instantiates `P u _ := u = t`, C10 `P _ b := b = a`.
 namespace Ombott.TsProps
 open Py
 
-theorem hdKey_eq (t : ThreadId) : hdKey t = t := by
-  simp [hdKey, Gen.headerDictTsThreadLocal]
-
-/-- accesses of attributes that are thread-local by the generated lists (or no attribute access) -/
 @[simp] theorem Obj.inst_cls (o : Obj) (t : ThreadId) (a : AppId) : (o.inst t a).cls = o.cls := by
   cases o <;> rfl
 
@@ -271,7 +267,7 @@ theorem srcVal_agree {P S} {h h' : Heap} (t : ThreadId) (a : AppId) (s : Src)
 /-- a step of a context inside the slice decides on the same updates and the same result in two
 heaps that agree on the slice -/
 theorem plan_agree {P S R} {h h' : Heap} (t : ThreadId) (a : AppId) (acc : Access)
-    (g : Agree P S h h') (ow : Own R h) (hp : P t a)
+    (g : Agree P S h h') (ow : Own R h) (hp : P t a) (hpk : P (hdKey t) a)
     (hRP : ∀ o, R t a o → P o.thread o.app)
     (hst : ∀ o : Obj, h'.hasStore (o.inst t a) = h.hasStore (o.inst t a))
     (hsl : acc.attrOk ∨ ∀ o : Obj, S (o.inst t a)) :
@@ -280,8 +276,7 @@ theorem plan_agree {P S R} {h h' : Heap} (t : ThreadId) (a : AppId) (acc : Acces
     (g.tls (o.inst t a) t k (by simpa using hp)).symm
   have erd : ∀ r, regDict h' t a r = regDict h t a r := fun r => regDict_agree t a r g ow hp hRP
   have esv : ∀ s, srcVal h' t a s = srcVal h t a s := fun s => srcVal_agree t a s g hp
-  have ehd : h'.hd a (hdKey t) = h.hd a (hdKey t) := by
-    rw [hdKey_eq]; exact (g.hd a t hp).symm
+  have ehd : h'.hd a (hdKey t) = h.hd a (hdKey t) := (g.hd a (hdKey t) hpk).symm
   have enx : h'.next t a = h.next t a := (g.next t a hp).symm
   have enc : h'.ncopies t a = h.ncopies t a := (g.ncopies t a hp).symm
   cases acc with
@@ -331,7 +326,7 @@ theorem regDict_ok {h : Heap} {t : ThreadId} {a : AppId} {r : Reg} {o : Oid} {d 
 
 /-- every update of a step of a context outside the slice lies outside the slice -/
 theorem plan_outside {P S R} {h : Heap} (t : ThreadId) (a : AppId) (acc : Access)
-    (ow : Own R h) (hnp : ¬ P t a) (hS : ∀ o : Obj, ¬ S (o.inst t a))
+    (ow : Own R h) (hnp : ¬ P t a) (hnk : ¬ P (hdKey t) a) (hS : ∀ o : Obj, ¬ S (o.inst t a))
     (hRP : ∀ o, R t a o → ¬ P o.thread o.app) (hsh : acc.sharedOk) :
     ∀ u ∈ (plan .perInstance t a h acc).1, u.outside P S := by
   have hreg : ∀ r o d, regDict h t a r = .ok (o, d) → ¬ P o.thread o.app := fun r o d hr =>
@@ -397,7 +392,7 @@ theorem plan_outside {P S R} {h : Heap} (t : ThreadId) (a : AppId) (acc : Access
   | hdSet src =>
     simp only [plan]
     split
-    · intro u hu; simp at hu; subst hu; simpa [Upd.outside, hdKey_eq] using hnp
+    · intro u hu; simp at hu; subst hu; exact hnk
     · intro u hu; simp at hu
   | dNew dst d =>
     simp only [plan]
@@ -505,7 +500,7 @@ theorem srcVal_own {R} {h : Heap} (ow : Own R h) (t : ThreadId) (a : AppId) (s :
 /-- every update a step decides on keeps the ownership relation; `hnew`: a context is related to
 the objects it creates; `hsl`: plain slots are only written when `R` does not depend on the thread -/
 theorem plan_keeps {R} {h : Heap} (t : ThreadId) (a : AppId) (acc : Access) (ow : Own R h)
-    (hnew : ∀ n, R t a ⟨t, a, n⟩)
+    (hnew : ∀ n, R t a ⟨t, a, n⟩) (hRk : ∀ o, R (hdKey t) a o ↔ R t a o)
     (hsl : acc.attrOk ∨ ∀ (o : Oid) (u u' : ThreadId), R u a o → R u' a o) :
     ∀ u ∈ (plan .perInstance t a h acc).1, u.keeps R := by
   cases acc with
@@ -584,7 +579,7 @@ theorem plan_keeps {R} {h : Heap} (t : ThreadId) (a : AppId) (acc : Access) (ow 
       intro u hu; simp at hu; subst hu
       cases x with
       | plain v => trivial
-      | dict o' => simpa [Upd.keeps, hdKey_eq] using ow.hd a (hdKey t) o' hx
+      | dict o' => exact (hRk o').mp (ow.hd a (hdKey t) o' hx)
     · intro u hu; simp at hu
   | hdSet src =>
     simp only [plan]
@@ -593,7 +588,7 @@ theorem plan_keeps {R} {h : Heap} (t : ThreadId) (a : AppId) (acc : Access) (ow 
       intro u hu; simp at hu; subst hu
       cases x with
       | plain v => trivial
-      | dict o' => simpa [Upd.keeps, hdKey_eq] using srcVal_own ow t a src o' hx
+      | dict o' => exact (hRk o').mpr (srcVal_own ow t a src o' hx)
     · intro u hu; simp at hu
   | dNew dst d =>
     simp only [plan]
@@ -636,30 +631,30 @@ theorem plan_keeps {R} {h : Heap} (t : ThreadId) (a : AppId) (acc : Access) (ow 
 
 /-- a step keeps ownership -/
 theorem exec_own {R} {h : Heap} (t : ThreadId) (a : AppId) (acc : Access) (ow : Own R h)
-    (hnew : ∀ n, R t a ⟨t, a, n⟩)
+    (hnew : ∀ n, R t a ⟨t, a, n⟩) (hRk : ∀ o, R (hdKey t) a o ↔ R t a o)
     (hsl : acc.attrOk ∨ ∀ (o : Oid) (u u' : ThreadId), R u a o → R u' a o) :
     Own R (exec .perInstance t a acc h).1 :=
-  ow.apply_all _ (plan_keeps t a acc ow hnew hsl)
+  ow.apply_all _ (plan_keeps t a acc ow hnew hRk hsl)
 
 /-- a step of a context outside the slice leaves the slice alone -/
 theorem exec_frame {P S R} {h : Heap} (t : ThreadId) (a : AppId) (acc : Access)
-    (ow : Own R h) (hnp : ¬ P t a) (hS : ∀ o : Obj, ¬ S (o.inst t a))
+    (ow : Own R h) (hnp : ¬ P t a) (hnk : ¬ P (hdKey t) a) (hS : ∀ o : Obj, ¬ S (o.inst t a))
     (hRP : ∀ o, R t a o → ¬ P o.thread o.app) (hsh : acc.sharedOk) :
     Agree P S h (exec .perInstance t a acc h).1 :=
-  Agree.outside_all h _ (plan_outside t a acc ow hnp hS hRP hsh)
+  Agree.outside_all h _ (plan_outside t a acc ow hnp hnk hS hRP hsh)
 
 theorem Access.sharedOk_of_attrOk {acc : Access} (h : acc.attrOk) : acc.sharedOk := by
   cases acc <;> first | trivial | exact h
 
 /-- a step of a context inside the slice: same result, agreement kept -/
 theorem exec_agree {P S R} {h h' : Heap} (t : ThreadId) (a : AppId) (acc : Access)
-    (g : Agree P S h h') (ow : Own R h) (hp : P t a)
+    (g : Agree P S h h') (ow : Own R h) (hp : P t a) (hpk : P (hdKey t) a)
     (hRP : ∀ o, R t a o → P o.thread o.app)
     (hst : ∀ o : Obj, h'.hasStore (o.inst t a) = h.hasStore (o.inst t a))
     (hsl : acc.attrOk ∨ ∀ o : Obj, S (o.inst t a)) :
     (exec .perInstance t a acc h').2 = (exec .perInstance t a acc h).2 ∧
     Agree P S (exec .perInstance t a acc h).1 (exec .perInstance t a acc h').1 := by
-  have hpl := plan_agree t a acc g ow hp hRP hst hsl
+  have hpl := plan_agree t a acc g ow hp hpk hRP hst hsl
   simp only [exec, hpl]
   exact ⟨trivial, g.apply_all _⟩
 
